@@ -617,32 +617,37 @@ def lvalue_root(e):
     return None
 
 
-def assigned(x, acc=None, declared=None):
+def assigned(x, acc=None, declared=None, push=False):
     """rust names assigned (=, op=, &mut borrow, mem::swap) inside x, and names declared by `let` inside x"""
     acc = set() if acc is None else acc; declared = set() if declared is None else declared
     if isinstance(x, list):
-        for y in x: assigned(y, acc, declared)
+        for y in x: assigned(y, acc, declared, push)
     elif isinstance(x, tuple) and x:
         if x[0] == "assign":
             r = lvalue_root(x[1])
             if r: acc.add(r)
-            assigned(x[3], acc, declared)
+            assigned(x[3], acc, declared, push)
         elif x[0] == "let":
             if isinstance(x[1], str): declared.add(x[1])
             else: declared.update(x[1][1])
-            if x[4] is not None: assigned(x[4], acc, declared)
+            if x[4] is not None: assigned(x[4], acc, declared, push)
         elif x[0] == "ref" and x[1]:
             r = lvalue_root(x[2])
             if r: acc.add(r)
         elif x[0] == "call":
             for a in x[2]:
-                assigned(a, acc, declared)
+                assigned(a, acc, declared, push)
                 a2 = strip_paren(a)
                 if a2[0] == "path" and len(a2[1]) == 1: acc.add(("maybe", a2[1][0]))   # bare out-parameter reborrow
         elif x[0] in ("path", "num", "bool"): pass
         else:
+            if push and x[0] == "mcall" and x[2] == "push":  # phase 4d (soundness fix): `v.push(x)` mutates `v`; asked for by the merge of an `if`
+                # statement only (loops pass a pushed-to vector on as a re-bound captured parameter, which is equivalent and what the
+                # existing equalities are proved against)
+                r = lvalue_root(x[1])
+                if r: acc.add(r)
             for y in x:
-                if isinstance(y, (tuple, list)): assigned(y, acc, declared)
+                if isinstance(y, (tuple, list)): assigned(y, acc, declared, push)
     return acc, declared
 
 
@@ -751,7 +756,7 @@ class FnLower:
     # ---------------------------------------------------------------- types
     def wty(self, t, what="type"):
         if t[0] == "name" and t[1] == "isize": return "i64"            # 64-bit target (the harness): isize = i64
-        if t[0] == "name" and t[1] in ("u64", "usize", "u8", "u128", "bool", "i64", "u32"): return t[1]
+        if t[0] == "name" and t[1] in ("u64", "usize", "u8", "u128", "bool", "i64", "u32", "i32"): return t[1]
         self.fail(f"{what} {t}")
 
     # ---------------------------------------------------------------- liveness
@@ -998,6 +1003,7 @@ class FnLower:
             if v.kind == "struct": return ("v", Val(v.lean, ("struct", v.ty), [v.lean]))
             if v.kind == "val": return ("v", Val(v.lean, v.ty, [v.lean]))
             if v.kind == "list": return ("v", Val(v.lean, "list", [v.lean]))
+            if v.kind == "ilist": return ("v", Val(v.lean, "ilist", [v.lean]))
             if v.kind in ("modlist", "moplist"): return ("v", Val(v.lean, v.kind, [v.lean]))
             self.fail(f"use of `{e[1][0]}` ({v.kind}) as a value")
         if k == "deref":
@@ -1172,6 +1178,15 @@ class FnLower:
             for v in (lo, hi, xv):
                 if v.ty not in WORD: self.fail(f"range contains on {v.ty}")
             return ("v", Val(f"({lo.atom} ≤ {xv.atom} ∧ {xv.atom} {'≤' if recv[3] else '<'} {hi.atom})", "bool", lo.deps | hi.deps | xv.deps))
+        if m == "push" and len(args) == 1 and recv[0] == "path" and len(recv[1]) == 1 and recv[1][0] in env and env[recv[1][0]].kind == "ilist":
+            v = env[recv[1][0]]; a = self.ex(args[0], env, ops)
+            if a.ty not in ("i32", "int"): self.fail(f"push of a {a.ty} onto a Vec<i32>")
+            ops.append(("let", v.lean, f"{v.lean} ++ [{unparen(a.atom)}]"))
+            return ("v", Val("()", "unit"))
+        if m == "abs" and not args and self.is_i32(recv, env):
+            a = self.ex(recv, env, ops)
+            self.monadic_used = True                       # `i32::abs`: i32::MIN panics with overflow checks
+            return ("m", f"ckI32 (Int.ofNat (Int.natAbs {a.atom}))", "i32")
         if m == "abs" and not args:
             a = self.ex(recv, env, ops)
             if a.ty != "i64": self.fail("abs on " + str(a.ty))
@@ -1249,8 +1264,21 @@ class FnLower:
                 ops.append(("letcode", f"{t} : Bool", code))
                 return ("v", Val(f"({t} = true)", "bool", [t]))
             return ("v", Val(f"({l.atom} {'∧' if op == '&&' else '∨'} {r.atom})", "bool", l.deps | r.deps))
-        l, r = self.seq([lambda: self.ex(e[2], env, ops), lambda: self.ex(e[3], env, ops)], ops)
+        # phase 4d: in `a op b` with `a : i32` the right operand is an i32 too - this types an untyped literal shifted by a variable
+        # (`zi * (1 << i)`); the hint never crosses into the operands of a shift (its amount has a type of its own)
+        outer_hint = getattr(self, "lit_hint", None)
+        vals_l = []
+        def left():
+            if op in ("<<", ">>"): self.lit_hint = None
+            v = self.ex(e[2], env, ops); vals_l.append(v); return v
+        def right():
+            self.lit_hint = "i32" if (vals_l and vals_l[0].ty == "i32" and op in ("+", "-", "*", "&", "|", "^")) else None
+            return self.ex(e[3], env, ops)
+        try: l, r = self.seq([left, right], ops)
+        finally: self.lit_hint = outer_hint
         deps = l.deps | r.deps
+        if op in ("<<", ">>") and l.ty == "int" and outer_hint == "i32" and strip_paren(e[2])[0] == "num": l = Val(l.atom, "i32", l.deps)
+        if "i32" in (l.ty, r.ty): return self.binop_i32(op, l, r, deps, e)
         if op in ("==", "!=", "<", ">", "<=", ">="):
             if not ((l.ty in WORD and r.ty in WORD) or (l.ty == r.ty == "i64") or (l.ty == "i64" and r.ty == "int") or (l.ty == r.ty == "u128")
                     or (op in ("==", "!=") and l.ty == r.ty and isinstance(l.ty, tuple) and l.ty[0] == "enum")):
@@ -1316,6 +1344,31 @@ class FnLower:
             v = a + b if e[1] == "+" else a - b
             return v if 0 <= v < 2**64 else None
         return None
+
+    def is_i32(self, e, env):
+        e = strip_paren(e)
+        return e[0] == "path" and len(e[1]) == 1 and e[1][0] in env and env[e[1][0]].kind == "w" and env[e[1][0]].ty == "i32"
+
+    def binop_i32(self, op, l, r, deps, e):
+        """phase 4d: i32 = Int; `+ - *` overflow-checked (`ckI32`), `&` two's complement (`andI32`), `>> k` arithmetic (`shrI32`),
+        `x << v` checks only the amount (`ckShlI32`: wraps like the hardware shift), comparisons"""
+        if op in ("<<", ">>"):
+            if l.ty != "i32" or r.ty not in ("i32", "int"): self.fail(f"shift `{op}` on {l.ty} by {r.ty}")
+            k = self.const_int(e[3])
+            if op == ">>":
+                if k is None or k >= 32: self.fail("i32 `>>` by a non-constant (or >= 32) amount")
+                return ("v", Val(f"(shrI32 {l.atom} {k})", "i32", deps))
+            self.monadic_used = True
+            return ("m", f"ckShlI32 {l.atom} {r.atom}", "i32")
+        if not (l.ty in ("i32", "int") and r.ty in ("i32", "int")): self.fail(f"`{op}` on {l.ty}, {r.ty}")
+        if op in ("==", "!=", "<", ">", "<=", ">="):
+            sym = {"==": "=", "!=": "≠", "<": "<", ">": ">", "<=": "≤", ">=": "≥"}[op]
+            return ("v", Val(f"({l.atom} {sym} {r.atom})", "bool", deps))
+        if op in ("+", "-", "*"):
+            self.monadic_used = True
+            return ("m", f"ckI32 ({unparen(l.atom)} {op} {unparen(r.atom)})", "i32")
+        if op == "&": return ("v", Val(f"(andI32 {l.atom} {r.atom})", "i32", deps))
+        self.fail(f"i32 operator `{op}`")
 
     def binop_i64(self, op, l, r, deps):
         if not (l.ty in ("i64", "int") and r.ty in ("i64", "int")): self.fail(f"`{op}` on {l.ty}, {r.ty}")
@@ -1610,6 +1663,9 @@ class FnLower:
         inner = strip_paren(e[2])
         if inner[0] == "num" and inner[2] in (None, "i64", "isize"): return ("v", Val(f"(-{inner[1]})", "i64"))
         v = self.ex(e[2], env, ops)
+        if v.ty == "i32":
+            self.monadic_used = True
+            return ("m", f"ckI32 (-{v.atom})", "i32")
         if v.ty != "i64": self.fail(f"unary - on {v.ty}")
         self.monadic_used = True
         return ("m", f"ckI64 (-{v.atom})", "i64")
@@ -1729,7 +1785,7 @@ class FnLower2(FnLower):
             for x in [y for y in env if y in caps]:
                 cvv = env[x]
                 if cvv.kind not in ("w", "b", "mod", "mulop", "val") or not self.all_init(env, [x]): self.fail(f"closure `{pat}` captures `{x}` ({cvv.kind})", ln)
-                tyl = "Int" if cvv.ty == "i64" else self.LEANTY.get(cvv.kind, "Nat")
+                tyl = "Int" if cvv.ty in ("i64", "i32") else self.LEANTY.get(cvv.kind, "Nat")
                 binders.append(f"({cvv.lean} : {tyl})"); capnames.append(cvv.lean)
             ptys = []
             for (pn, pt) in i0[1]:
@@ -1778,9 +1834,14 @@ class FnLower2(FnLower):
         if i0[0] == "path" and len(i0[1]) == 1 and i0[1][0] in env and env[i0[1][0]].kind in ("mod", "mulop", "cr", "list"):
             env[pat] = env[i0[1][0]]; return
         n = self.newvar(pat)
+        if i0[0] == "vec" and not i0[1] and pat in self.ilist_vars:       # phase 4d: `let mut res = vec![]` of the returned `Vec<i32>`
+            ops.append(("let", f"{n} : List Int", "[]")); env[pat] = Var("ilist", n, rust=pat); return
         # evaluate first (the initialiser may mention the variable being shadowed)
         ops1 = []
         t = self.ex_into(n, init, env, ops1)
+        if pat in self.i32vars:                # phase 4d: integer-literal fallback (see infer_i32)
+            if t == "int" and ops1 and ops1[-1][0] == "let": ops1[-1] = ("let", f"{n} : Int", ops1[-1][2]); t = "i32"
+            else: self.fail(f"`{pat}` falls back to i32 but is initialised with a {t}", ln)
         if pat in self.i64vars:
             if t == "int" and ops1 and ops1[-1][0] == "let": ops1[-1] = ("let", f"{n} : Int", ops1[-1][2]); t = "i64"
             elif t != "i64": self.fail(f"`{pat}` is used as an i64 but initialised with a {t}", ln)
@@ -1790,7 +1851,7 @@ class FnLower2(FnLower):
             ops1[-1] = ("let", f"{n} : Bool", f"decide ({o[2]})")
             env[pat] = Var("b", n, "bool", rust=pat)
         elif t in WORD: env[pat] = Var("w", n, (dty if dty in WORD else None) or t, rust=pat)
-        elif t in ("i64", "u128", "u32"): env[pat] = Var("w", n, t, rust=pat)
+        elif t in ("i64", "u128", "u32", "i32"): env[pat] = Var("w", n, t, rust=pat)
         elif t == "mod": env[pat] = Var("mod", n, rust=pat)
         elif isinstance(t, tuple) and t[0] == "struct": env[pat] = Var("struct", n, t[1], rust=pat)
         elif isinstance(t, tuple) and t[0] == "enum": env[pat] = Var("val", n, t, rust=pat)
@@ -1869,7 +1930,7 @@ class FnLower2(FnLower):
         out = []
         for n in names:
             v = env[n]
-            if v.kind in ("w", "b", "out", "struct", "list"): out.append(v.lean)
+            if v.kind in ("w", "b", "out", "struct", "list", "ilist"): out.append(v.lean)
             elif v.kind in ("arr", "outarr"): out.extend(v.lean)
             else: self.fail(f"variable `{n}` ({v.kind}) assigned inside a branch")
         return out
@@ -1882,8 +1943,8 @@ class FnLower2(FnLower):
             elif not v.init: return False
         return True
 
-    def assigned_outer(self, x, env):
-        a, d = assigned(x)
+    def assigned_outer(self, x, env, push=False):
+        a, d = assigned(x, push=push)
         res = set()
         for y in a:
             if isinstance(y, str):
@@ -1901,7 +1962,7 @@ class FnLower2(FnLower):
             rest = K(lambda env2, _v, ops2: self.stmts(stmts, i + 1, tail, env2, ops2, k, nested), after, toplevel=k.toplevel)
             a = self.block_code(e[2], dict_copy(env), rest); b = self.block_code(eb, dict_copy(env), rest)
             return ("if", c, a, b)
-        asg = self.assigned_outer([e[2][0], e[2][1], eb[0], eb[1]], env)
+        asg = self.assigned_outer([e[2][0], e[2][1], eb[0], eb[1]], env, push=True)
         live_out = after | (self.ret_live & asg)
         mv = [n for n in env if n in asg and n in live_out]
         names = self.merge_names(env, mv)
@@ -1948,13 +2009,13 @@ class FnLower2(FnLower):
         for n in carried + captured:
             if not self.all_init(env, [n]): self.fail(f"variable `{n}` is live across the loop but not initialised before it", ln)
         for n in carried:
-            if env[n].kind not in ("w", "b", "arr", "out", "outarr", "list", "struct"): self.fail(f"loop-carried variable `{n}` of kind {env[n].kind}", ln)
+            if env[n].kind not in ("w", "b", "arr", "out", "outarr", "list", "struct", "ilist"): self.fail(f"loop-carried variable `{n}` of kind {env[n].kind}", ln)
         cap_names = []; cap_binders = []
         for n in captured:
             v = env[n]
             if v.kind == "handle": continue
             nm = [v.lean] if v.kind == "cr" else v.names()
-            tyl = "Modulus" if v.kind == "cr" else ("Int" if v.ty == "i64" else self.LEANTY.get(v.kind, "Nat"))
+            tyl = "Modulus" if v.kind == "cr" else ("Int" if v.ty in ("i64", "i32") else self.LEANTY.get(v.kind, "Nat"))
             for x in nm:
                 if v.kind == "struct": tyl = self.tr.structs[v.ty]["lean"]
                 if v.kind == "val" and isinstance(v.ty, tuple) and v.ty[0] == "enum": tyl = self.tr.enums[v.ty[1]]["lean"]
@@ -1971,7 +2032,7 @@ class FnLower2(FnLower):
         for n in carried:
             v = env[n]
             for x in v.names():
-                car_names.append(x); car_types.append("Int" if v.ty == "i64" else self.LEANTY.get(v.kind, "Nat"))
+                car_names.append(x); car_types.append("Int" if v.ty in ("i64", "i32") else self.LEANTY.get(v.kind, "Nat"))
         # a `for` nested in the body of another `for` is emitted as a function of its own that RETURNS its loop-carried state
         # (no continuation inside it): its body must not leave it (`return` / `break`)
         nested_for = bool(self.loop_stack)
@@ -2009,7 +2070,7 @@ class FnLower2(FnLower):
         self.aux.append(ent)
         return ("call", callstr(count, lo.atom))
 
-    LEANTY = {"w": "Nat", "b": "Bool", "out": "Nat", "mod": "Modulus", "mulop": "MulOperand", "list": "List Nat",
+    LEANTY = {"w": "Nat", "b": "Bool", "out": "Nat", "mod": "Modulus", "mulop": "MulOperand", "list": "List Nat", "ilist": "List Int",
               "modlist": "List Modulus", "moplist": "List MulOperand"}
 
     def for_loop_nested(self, s, stmts, i, tail, env, ops, k, nested):
@@ -2041,7 +2102,7 @@ class FnLower2(FnLower):
             v = env[n]
             if v.kind in ("handle", "closure"): continue
             nm = [v.lean] if v.kind == "cr" else v.names()
-            tyl = "Modulus" if v.kind == "cr" else ("Int" if v.ty == "i64" else self.LEANTY.get(v.kind, "Nat"))
+            tyl = "Modulus" if v.kind == "cr" else ("Int" if v.ty in ("i64", "i32") else self.LEANTY.get(v.kind, "Nat"))
             for x in nm:
                 if v.kind == "struct": tyl = self.tr.structs[v.ty]["lean"]
                 if v.kind == "val" and isinstance(v.ty, tuple) and v.ty[0] == "enum": tyl = self.tr.enums[v.ty[1]]["lean"]
@@ -2052,7 +2113,7 @@ class FnLower2(FnLower):
         for n in carried:
             v = env[n]
             for x in v.names():
-                car_names.append(x); car_types.append("Int" if v.ty == "i64" else self.tr.structs[v.ty]["lean"] if v.kind == "struct" else self.LEANTY.get(v.kind, "Nat"))
+                car_names.append(x); car_types.append("Int" if v.ty in ("i64", "i32") else self.tr.structs[v.ty]["lean"] if v.kind == "struct" else self.LEANTY.get(v.kind, "Nat"))
         lname = f"{self.name}_loop{self.nloop}"
         iv = self.newvar(var)
         def callstr(fuel, ivar): return " ".join([lname] + cap_names + [fuel, ivar] + car_names)
@@ -2090,13 +2151,13 @@ class FnLower2(FnLower):
             if not self.all_init(env, [n]):
                 self.fail(f"variable `{n}` is live across the loop but not initialised before it", ln)
         for n in carried:
-            if env[n].kind not in ("w", "b", "arr", "out", "outarr", "list", "struct"): self.fail(f"loop-carried variable `{n}` of kind {env[n].kind}", ln)
+            if env[n].kind not in ("w", "b", "arr", "out", "outarr", "list", "struct", "ilist"): self.fail(f"loop-carried variable `{n}` of kind {env[n].kind}", ln)
         cap_names = []; cap_binders = []
         for n in captured:
             v = env[n]
             if v.kind == "handle": continue
             nm = [v.lean] if v.kind == "cr" else v.names()
-            tyl = "Modulus" if v.kind == "cr" else ("Int" if v.ty == "i64" else self.LEANTY.get(v.kind, "Nat"))
+            tyl = "Modulus" if v.kind == "cr" else ("Int" if v.ty in ("i64", "i32") else self.LEANTY.get(v.kind, "Nat"))
             for x in nm:
                 if v.kind == "struct": tyl = self.tr.structs[v.ty]["lean"]
                 if v.kind == "val" and isinstance(v.ty, tuple) and v.ty[0] == "enum": tyl = self.tr.enums[v.ty[1]]["lean"]
@@ -2107,7 +2168,7 @@ class FnLower2(FnLower):
         for n in carried:
             v = env[n]
             for x in v.names():
-                car_names.append(x); car_types.append("Int" if v.ty == "i64" else self.LEANTY.get(v.kind, "Nat"))
+                car_names.append(x); car_types.append("Int" if v.ty in ("i64", "i32") else self.LEANTY.get(v.kind, "Nat"))
         if not car_names: self.fail("loop without loop-carried state", ln)
         lname = f"{self.name}_loop{self.nloop}"
         def callstr(fuel): return " ".join([lname] + cap_names + [fuel] + car_names)
@@ -2292,9 +2353,56 @@ class FnTranslate(FnLower2):
         while walk(body): pass
         return vs
 
+    def infer_i32(self):
+        """phase 4d.  (1) integer-literal fallback: a `let [mut] x = <unsuffixed literal>;` without a type whose every other occurrence is
+        `x += lit` / `x -= lit` or the AMOUNT of a shift (`Shl<T> for i32` exists for every integer `T`: no constraint) has type i32 in Rust.
+        (2) the local returned by a function of type `Vec<i32>` (tail expression / `return x`) is a `Vec<i32>`."""
+        body = [self.fn["body"][0], self.fn["body"][1]]
+        cands = set()
+        def lets(x):
+            if isinstance(x, list):
+                for y in x: lets(y)
+            elif isinstance(x, tuple) and x:
+                if x[0] == "let" and isinstance(x[1], str) and x[3] is None and x[4] is not None:
+                    i0 = strip_paren(x[4])
+                    if i0[0] == "num" and i0[2] is None: cands.add(x[1])
+                for y in x:
+                    if isinstance(y, (tuple, list)): lets(y)
+        lets(body)
+        total = {c: 0 for c in cands}; ok = {c: 0 for c in cands}
+        def count(x):
+            if isinstance(x, list):
+                for y in x: count(y)
+            elif isinstance(x, tuple) and x:
+                if x[0] == "path" and len(x[1]) == 1 and x[1][0] in total: total[x[1][0]] += 1
+                if x[0] == "assign" and x[2] in ("+", "-", "+=", "-="):
+                    l = strip_paren(x[1]); r = strip_paren(x[3])
+                    if l[0] == "path" and len(l[1]) == 1 and l[1][0] in ok and r[0] == "num" and r[2] is None: ok[l[1][0]] += 1
+                if x[0] == "bin" and x[1] in ("<<", ">>"):
+                    r = strip_paren(x[3])
+                    if r[0] == "path" and len(r[1]) == 1 and r[1][0] in ok: ok[r[1][0]] += 1
+                for y in x:
+                    if isinstance(y, (tuple, list)): count(y)
+        count(body)
+        i32vars = {c for c in cands if total[c] > 0 and total[c] == ok[c]}
+        ilist = set()
+        if self.rty(self.fn["ret"]) == ("vec", ("name", "i32")):
+            def rets(x):
+                if isinstance(x, list):
+                    for y in x: rets(y)
+                elif isinstance(x, tuple) and x:
+                    if x[0] == "return" and x[1] is not None and strip_paren(x[1])[0] == "path" and len(strip_paren(x[1])[1]) == 1: ilist.add(strip_paren(x[1])[1][0])
+                    for y in x:
+                        if isinstance(y, (tuple, list)): rets(y)
+            rets(body)
+            t = self.fn["body"][1]
+            if t is not None and strip_paren(t)[0] == "path" and len(strip_paren(t)[1]) == 1: ilist.add(strip_paren(t)[1][0])
+        return i32vars, ilist
+
     def signature(self):
         fn = self.fn
         self.i64vars = self.infer_i64()
+        self.i32vars, self.ilist_vars = self.infer_i32()
         CLOSURE_CAPS.clear()
         def find_closures(x):
             if isinstance(x, list):
@@ -2343,6 +2451,8 @@ class FnTranslate(FnLower2):
                 params.append(("w", pt[1])); env[pn] = Var("w", lean, pt[1], rust=pn); env[pn].isref = isref; self.binders.append(f"({lean} : Nat)")
             elif pt[0] == "name" and pt[1] in ("i64", "isize"):
                 params.append(("wi", "i64")); env[pn] = Var("w", lean, "i64", rust=pn); self.binders.append(f"({lean} : Int)")
+            elif pt[0] == "name" and pt[1] == "i32":           # phase 4d: i32 = Int with `ckI32`-checked arithmetic
+                params.append(("wi", "i32")); env[pn] = Var("w", lean, "i32", rust=pn); self.binders.append(f"({lean} : Int)")
             elif pt[0] == "name" and pt[1] == "bool":
                 params.append(("b",)); env[pn] = Var("b", lean, "bool", rust=pn); self.binders.append(f"({lean} : Bool)")
             elif self.abs and (pt == ("name", "f64") or (pt[0] == "ref" and not pt[1] and pt[2][0] == "name" and pt[2][1] in self.opts.get("opaque", []))
@@ -2412,6 +2522,7 @@ class FnTranslate(FnLower2):
         elif rt[0] == "name" and rt[1] in self.tr.structs: ret = ("struct", rt[1])
         elif rt[0] == "name" and rt[1] in self.tr.enums: ret = ("enum", rt[1])          # phase 4d
         elif rt == ("vec", ("name", "usize")) or rt == ("vec", ("name", "u64")): ret = "list"
+        elif rt == ("vec", ("name", "i32")): ret = "ilist"
         elif rt[0] == "tuple" and all(t[0] == "name" and t[1] in ("u64", "usize", "i64") for t in rt[1]): ret = ("tuple", [t[1] for t in rt[1]])
         else: self.fail(f"return type {rt}")
         self.ret = ret
@@ -2422,6 +2533,7 @@ class FnTranslate(FnLower2):
         elif isinstance(ret, tuple) and ret[0] == "struct": tys.append(self.tr.structs[ret[1]]["lean"])
         elif isinstance(ret, tuple) and ret[0] == "enum": tys.append(self.tr.enums[ret[1]]["lean"])
         elif ret == "list": tys.append("List Nat")
+        elif ret == "ilist": tys.append("List Int")
         elif ret != "unit": tys.append("Bool" if ret == "bool" else "Int" if ret == "i64" else "Nat")
         if not tys: self.fail("function without result")
         self.ret_lean = " × ".join(tys)
@@ -2533,7 +2645,7 @@ class FnTranslate(FnLower2):
                 parts += v.names()
             if self.ret != "unit":
                 if val is None: self.fail("missing return value")
-                if isinstance(self.ret, tuple) and self.ret[0] in ("struct", "enum") or self.ret in ("list", "i64"):
+                if isinstance(self.ret, tuple) and self.ret[0] in ("struct", "enum") or self.ret in ("list", "i64", "ilist"):
                     if val.ty != self.ret and not (self.ret == "i64" and val.ty == "int"): self.fail(f"function returning {self.ret} returns {val.ty}")
                     parts.append(val.atom)
                 elif is_tup(self.ret):
@@ -3087,6 +3199,16 @@ FILES += [
 # multi-word modular add / sub built from them.  Functions of Gen/WordFns.lean are referred to as `GenW.f`.
 PRELUDE_WORD2 = """/-- `a.cmp(&b)` on machine words -/
 def cmpW (a b : Nat) : Ordering := if a < b then .lt else if a = b then .eq else .gt
+/-- i32 = Int: `+ - *`, unary `-`, `abs` are overflow-checked -/
+def ckI32 (v : Int) : R Int := if -(2^31 : Int) ≤ v ∧ v < 2^31 then pure v else .error .overflow
+/-- the i32 with the given low 32 bits (two's complement) -/
+def asI32 (n : Nat) : Int := if n % 4294967296 < 2147483648 then Int.ofNat (n % 4294967296) else Int.ofNat (n % 4294967296) - 4294967296
+/-- `a & b` on i32 (two's complement) -/
+def andI32 (a b : Int) : Int := asI32 ((a % 4294967296).toNat &&& (b % 4294967296).toNat)
+/-- `a >> k` on i32, constant `k < 32`: arithmetic shift = floor division -/
+def shrI32 (a : Int) (k : Nat) : Int := a / (2^k : Int)
+/-- `a << v` on i32: only the AMOUNT is checked (`0 <= v < 32`); the value wraps (`1 << 31 = i32::MIN`) -/
+def ckShlI32 (a v : Int) : R Int := if 0 ≤ v ∧ v < 32 then .ok (asI32 ((a % 4294967296).toNat * 2^v.toNat)) else .error .overflow
 """
 TABLE_WORD2 = [
     {"file": UB, "fn": "left_shift_u192", "model": "leftShiftU192 [a0, a1, a2] s"},
@@ -3098,6 +3220,8 @@ TABLE_WORD2 = [
     {"file": UB, "fn": "add_uint_mod", "model": "addUintMod"},
     {"file": UB, "fn": "sub_uint_mod", "model": "subUintMod"},
     {"file": UB, "fn": "add_uint_mod_inplace", "model": "addUintMod"},
+    # number_theory.rs `naf` (i32 arithmetic); fuel 40 / exhaustion = leave the loop, as `nafLoop` of the hand model (an i32 has 32 bits)
+    {"file": UN, "fn": "naf", "model": "HC.naf (|value| < 2^30)", "loops": [{"fuel": 40, "exhausted": "break"}]},
 ]
 FILES += [
     ("Word2Fns.lean", {"ns": "GenW2", "imports": ["Heathcliff.Gen.WordFns"], "table": TABLE_WORD2, "opens": ["HC.GenW"], "prelude": PRELUDE_WORD2}),
